@@ -86,6 +86,12 @@ def gen_lex_text(r, big):
     return "".join(out)
 
 
+def ref_line_col(tb, off):
+    """reference: 1 + newlines before the offset, bytes after the last newline"""
+    pre = tb[:off]
+    return (pre.count(b"\n") + 1, len(pre) - (pre.rfind(b"\n") + 1))
+
+
 def lex_cases(ctx):
     r = ctx.rng
     cases = []
@@ -119,7 +125,7 @@ def run_lex_correspondence(ctx, exe):
     drv_in = "".join("L %d %d %s\n" % (cases[i][0], impl[i]["c"], hexs(cases[i][2])) for i in range(len(cases)))
     rc2, out2, err2, dt2 = core.run_exe(core.lean_exe("drv_c06"), [], stdin_text=drv_in, timeout=900)
     model = out2.split("\n")
-    dis, nl_in_str, full, with_nl, multi, ndiag = [], 0, 0, 0, 0, 0
+    dis, nl_in_str, full, with_nl, multi, ndiag, nref = [], 0, 0, 0, 0, 0, 0
     strnl = []
     for i, (nx, part, t) in enumerate(cases):
         im = impl[i]
@@ -140,12 +146,22 @@ def run_lex_correspondence(ctx, exe):
             if len(tb) > 0 and not (0 <= ps <= pe <= len(tb)):
                 ctx.finding("diag-outside-block:" + msg_class(msg), "diagnostic %r of a block of %d bytes has the range [%d,%d) relative to the block"
                             % (msg, len(tb), ps, pe), {"op": "L", "newxta": nx, "part": part, "text_hex": hexs(t), "result": im})
+            elif len(tb) > 0 and b'"' not in tb:
+                # the reference of the theorem, applied to the real library: count the newlines before each end of the range
+                # (texts with string literals are left to the string-newline witness)
+                nref += 1
+                want = ref_line_col(tb, ps) + ref_line_col(tb, pe)
+                if want != (sl, sc, el, ec):
+                    ctx.finding("linecol:" + msg_class(msg), "diagnostic %r over bytes [%d,%d) of a plain-text block is reported at %d:%d-%d:%d, "
+                                "counting newlines gives %d:%d-%d:%d" % ((msg, ps, pe, sl, sc, el, ec) + want),
+                                {"op": "L", "newxta": nx, "part": part, "text_hex": hexs(t), "result": im})
     cov["lex_cases"] = len(cases)
     cov["lex_disagreements"] = len(dis)
     cov["lex_fully_consumed"] = full
     cov["lex_with_newline_entries"] = with_nl
     cov["lex_with_3plus_entries"] = multi
     cov["lex_diagnostics_range_checked"] = ndiag
+    cov["lex_diagnostics_checked_against_reference"] = nref
     cov["lex_samples"] = [{"text": cases[i][2][:80], "impl": "c=%d tab=%s errs=%s" % (impl[i]["c"], impl[i]["tab"], impl[i]["errs"]),
                            "model": model[i]} for i in (4, len(cases) // 2, len(cases) - 1)]
     if dis:
